@@ -5,6 +5,7 @@ import Qryn.Proofs.InternalParams
 import Qryn.Proofs.InternalCompose
 import Qryn.Proofs.InternalEndToEnd
 import Qryn.Proofs.InternalPathSyntax
+import Qryn.Proofs.InternalMetricBridge
 import Qryn.Read.JsonPathSyntax
 import Qryn.LogQL.PostMetric
 import Qryn.Gen.InternalPlanner
@@ -294,9 +295,9 @@ theorem stage_meets_logql_comparison (N : NumOps V) (op : CmpOp) (v : V) (es : L
     proper entries whose fingerprints identify their label sets and whose series fit under the cap, the bucket
     arrays yield exactly one sample per series and non-empty window `[start + i·d, start + (i+1)·d)`, `i < n`,
     with the LogQL value of the entries of that series in that window. -/
-theorem stage_meets_logql_rangeAgg (N : NumOps V) (maxSeries : Nat) (g : Grid) (dur : Int) (fn : RangeFn)
+theorem stage_meets_logql_rangeAgg (N : NumOps V) (maxSeries : Nat) (g : Grid) (dur : Int) (fn : Read.RangeFn)
     (hfn : rangeCounts fn = true) (bs : Batches V) (hp : ∀ e ∈ bs.flatten, e.err = none)
-    (hcap : (firstBy (fun e : Entry V => e.fp) bs.flatten).length ≤ maxSeries) (hf : FpFaithful bs.flatten) :
+    (hcap : (Stages.firstBy (fun e : Entry V => e.fp) bs.flatten).length ≤ maxSeries) (hf : FpFaithful bs.flatten) :
     run N (aggOps N maxSeries g (lraFn N dur fn)) [] bs =
       aggregate (fun e : Entry V => e.labels) g (rangeValue N dur fn) bs.flatten := by
   rw [run_aggOps N maxSeries g _ (lraFn_counts N dur fn hfn) bs hp hcap,
@@ -305,11 +306,11 @@ theorem stage_meets_logql_rangeAgg (N : NumOps V) (maxSeries : Nat) (g : Grid) (
 
 /-- **unwrapped range aggregation** (`sum/avg/min/max/first/last_over_time`, `rate` of an unwrapped value):
     `min_over_time` is the minimum, `first_over_time` the value of the first entry, also when it is 0. -/
-theorem stage_meets_logql_unwrapAgg (N : NumOps V) (maxSeries : Nat) (g : Grid) (dur : Int) (fn : UnwrapFn)
+theorem stage_meets_logql_unwrapAgg (N : NumOps V) (maxSeries : Nat) (g : Grid) (dur : Int) (fn : Read.UnwrapFn)
     (hfn : unwrapCounts fn = true) (bs : Batches V) (hp : ∀ e ∈ bs.flatten, e.err = none)
-    (hcap : (firstBy (fun e : Entry V => e.fp) bs.flatten).length ≤ maxSeries) (hf : FpFaithful bs.flatten) :
+    (hcap : (Stages.firstBy (fun e : Entry V => e.fp) bs.flatten).length ≤ maxSeries) (hf : FpFaithful bs.flatten) :
     run N (aggOps N maxSeries g (unwrapAggFn N dur fn)) [] bs =
-      aggregate (fun e : Entry V => e.labels) g (unwrapValue N dur fn) bs.flatten := by
+      aggregate (fun e : Entry V => e.labels) g (Stages.unwrapValue N dur fn) bs.flatten := by
   rw [run_aggOps N maxSeries g _ (unwrapAggFn_counts N dur fn hfn) bs hp hcap,
     aggregate_value_congr _ g _ _ (fun l hl => unwrap_value N dur fn l hl hfn),
     aggregate_key_congr (fun e : Entry V => e.fp) (fun e : Entry V => e.labels) g _ _ hf]
@@ -317,7 +318,7 @@ theorem stage_meets_logql_unwrapAgg (N : NumOps V) (maxSeries : Nat) (g : Grid) 
 /-- **vector aggregation** (`sum/min/max/avg/count by|without`), after `by/without` has cut the labels -/
 theorem stage_meets_logql_vectorAgg (N : NumOps V) (maxSeries : Nat) (g : Grid) (fn : VecFn)
     (bs : Batches V) (hp : ∀ e ∈ bs.flatten, e.err = none)
-    (hcap : (firstBy (fun e : Entry V => e.fp) bs.flatten).length ≤ maxSeries) (hf : FpFaithful bs.flatten) :
+    (hcap : (Stages.firstBy (fun e : Entry V => e.fp) bs.flatten).length ≤ maxSeries) (hf : FpFaithful bs.flatten) :
     run N (aggOps N maxSeries g (vecFn N fn)) [] bs =
       aggregate (fun e : Entry V => e.labels) g (vecValue N fn) bs.flatten := by
   rw [run_aggOps N maxSeries g _ (vecFn_counts N fn) bs hp hcap,
@@ -340,7 +341,7 @@ theorem getLast_val_map (N : NumOps V) (l : List (Entry V)) (hl : l ≠ []) :
     the choice is open on both engines. -/
 theorem first_over_time_is_earliest (N : NumOps V) (d : Int) (asc : Bool) (l : List (Entry V)) (hl : l ≠ [])
     (hs : TsOrdered asc l) :
-    ∃ e ∈ l, unwrapValue N d (dirFn asc .firstOverTime) l = e.val ∧ ∀ x ∈ l, e.ts ≤ x.ts := by
+    ∃ e ∈ l, Stages.unwrapValue N d (dirFn asc .firstOverTime) l = e.val ∧ ∀ x ∈ l, e.ts ≤ x.ts := by
   cases asc with
   | true =>
     cases l with
@@ -354,7 +355,7 @@ theorem first_over_time_is_earliest (N : NumOps V) (d : Int) (asc : Bool) (l : L
         simpa using this
   | false =>
     refine ⟨l.getLast hl, List.getLast_mem hl, ?_, ?_⟩
-    · simp only [dirFn, Bool.false_eq_true, if_false, unwrapValue]
+    · simp only [dirFn, Bool.false_eq_true, if_false, Stages.unwrapValue]
       exact getLast_val_map N l hl
     · intro x hx
       have hsplit := List.dropLast_concat_getLast hl
@@ -368,7 +369,7 @@ theorem first_over_time_is_earliest (N : NumOps V) (d : Int) (asc : Bool) (l : L
 /-- **`last_over_time` is the value of a latest entry of the window** (ClickHouse: `argMax(value, timestamp_ns)`) -/
 theorem last_over_time_is_latest (N : NumOps V) (d : Int) (asc : Bool) (l : List (Entry V)) (hl : l ≠ [])
     (hs : TsOrdered asc l) :
-    ∃ e ∈ l, unwrapValue N d (dirFn asc .lastOverTime) l = e.val ∧ ∀ x ∈ l, x.ts ≤ e.ts := by
+    ∃ e ∈ l, Stages.unwrapValue N d (dirFn asc .lastOverTime) l = e.val ∧ ∀ x ∈ l, x.ts ≤ e.ts := by
   cases asc with
   | false =>
     cases l with
@@ -382,7 +383,7 @@ theorem last_over_time_is_latest (N : NumOps V) (d : Int) (asc : Bool) (l : List
         simpa using this
   | true =>
     refine ⟨l.getLast hl, List.getLast_mem hl, ?_, ?_⟩
-    · simp only [dirFn, if_true, unwrapValue]
+    · simp only [dirFn, if_true, Stages.unwrapValue]
       exact getLast_val_map N l hl
     · intro x hx
       have hsplit := List.dropLast_concat_getLast hl
@@ -456,7 +457,7 @@ theorem metricPlan_meets_logql (E : Env V) (h0 : E.o.isNum [] = false) (c : Read
           (runByWithout E p.aggBy (runStages E p.stages bs))) =
       (match k with
       | .range fn => if rangeCounts fn then aggregate (·.labels) (Grid.of c.fromNs c.toNs dur) (rangeValue E.num dur fn) (stages E p.stages bs.flatten) else []
-      | .unwrap fn => if unwrapCounts fn then aggregate (·.labels) (Grid.of c.fromNs c.toNs dur) (unwrapValue E.num dur (dirFn c.orderAsc fn))
+      | .unwrap fn => if unwrapCounts fn then aggregate (·.labels) (Grid.of c.fromNs c.toNs dur) (Stages.unwrapValue E.num dur (dirFn c.orderAsc fn))
           (optByWithout E p.aggBy (stages E p.stages bs.flatten)) else []) := by
     cases k with
     | range fn =>
@@ -519,7 +520,7 @@ theorem metricPlan_meets_logql (E : Env V) (h0 : E.o.isNum [] = false) (c : Read
     rw [hbw] at hvec
     have hrr : rangeResult E c p bs.flatten = optCompare E.num p.aggCmp (match k with
       | .range fn => if rangeCounts fn then aggregate (·.labels) (Grid.of c.fromNs c.toNs dur) (rangeValue E.num dur fn) (stages E p.stages bs.flatten) else []
-      | .unwrap fn => if unwrapCounts fn then aggregate (·.labels) (Grid.of c.fromNs c.toNs dur) (unwrapValue E.num dur (dirFn c.orderAsc fn))
+      | .unwrap fn => if unwrapCounts fn then aggregate (·.labels) (Grid.of c.fromNs c.toNs dur) (Stages.unwrapValue E.num dur (dirFn c.orderAsc fn))
           (optByWithout E p.aggBy (stages E p.stages bs.flatten)) else []) := by
       simp only [rangeResult, evalPlan, hk]
       cases k <;> rfl
@@ -557,8 +558,8 @@ theorem plan_batching_independent (E : Env V) (h0 : E.o.isNum [] = false) (c : R
     rewrites labels (true of every split at `json`/`logfmt`), `MetricOk` follows from: series under the cap, and no two different label sets reaching an aggregator have the same fingerprint -/
 theorem metricOk_from_noCollision (E : Env V) (c : Read.Ctx) (p : Plan V) (es : List (Entry V)) (hm : p.agg.isSome = true)
     (hr : ∃ s ∈ p.stages, s.relabels = true)
-    (hcap : (firstBy (fun e : Entry V => e.fp) (aggInput E p es)).length ≤ c.maxSeries)
-    (hcapVec : (firstBy (fun e : Entry V => e.fp) (vecInput E c p es)).length ≤ c.maxSeries)
+    (hcap : (Stages.firstBy (fun e : Entry V => e.fp) (aggInput E p es)).length ≤ c.maxSeries)
+    (hcapVec : (Stages.firstBy (fun e : Entry V => e.fp) (vecInput E c p es)).length ≤ c.maxSeries)
     (hnc : NoCollision E ((aggInput E p es).map (·.labels)))
     (hncVec : NoCollision E ((vecInput E c p es).map (·.labels))) : MetricOk E c p es :=
   metricOk_of_noCollision E c p es hm hr hcap hcapVec hnc hncVec
@@ -1031,14 +1032,49 @@ theorem split_end_to_end_metric (o : Oracles) (E : Env V) (h0 : E.o.isNum [] = f
     (rc : Read.Ctx) (p : Plan V) (hagg : p.agg.isSome = true)
     (hnr : ∀ s ∈ p.stages, s.relabels = false) (hby : p.aggBy = none)
     (hvec : ∀ fn bw cmp, p.vec = some (fn, bw, cmp) → bw = none)
-    (hcap : (firstBy (fun e : Entry V => e.fp) (aggInput E p (chRows E.num o c d ms (fs.map .fl)))).length ≤ rc.maxSeries)
-    (hcapVec : (firstBy (fun e : Entry V => e.fp) (vecInput E rc p (chRows E.num o c d ms (fs.map .fl)))).length ≤ rc.maxSeries)
+    (hcap : (Stages.firstBy (fun e : Entry V => e.fp) (aggInput E p (chRows E.num o c d ms (fs.map .fl)))).length ≤ rc.maxSeries)
+    (hcapVec : (Stages.firstBy (fun e : Entry V => e.fp) (vecInput E rc p (chRows E.num o c d ms (fs.map .fl)))).length ≤ rc.maxSeries)
     (bs : Batches V) (hbs : bs.flatten = chRows E.num o c d ms (fs.map .fl)) :
     runPlan E rc p bs = evalPlan E rc p (chRows E.num o c d ms (fs.map .fl)) := by
   have hok : MetricOk E rc p bs.flatten := by
     rw [hbs]
     exact metricOk_of_upstream E rc p _ hagg hnr hby hvec hcap hcapVec (upstream_fpFaithful E.num o c hn d hd ms hm fs)
   rw [metricPlan_meets_logql E h0 rc p hagg bs (by rw [hbs]; exact chRows_proper E.num o c d ms _) hok, hbs]
+
+/-! ### range aggregations: the in-process engine over ClickHouse's rows vs ClickHouse alone -/
+
+/-- **engines_agree_rangeAgg — `rate`, `count_over_time`, `bytes_rate`, `bytes_over_time`.** The same metric query
+    `fn({sel} filters [d])` answered two ways. In process: ClickHouse evaluates the statement of `{sel} filters` (SQL
+    semantics of the real statement, hand-over form), the getter scans the rows, any batching, `internal_planner` runs the
+    range aggregation (`Read.runPlan`). ClickHouse alone: its statement for the whole metric query returns
+    `LogQL.evalMetric` (C08 `plan_metric_correct`), whose points before the step stage are `LogQL.rangePoints`. For every
+    label set, bucket start and value the first has that sample iff the second has it for the stream with those labels.
+    Float64 idealised as exact rationals on both sides (as in C08); window of whole range buckets starting at a multiple
+    of the range (`FixPeriodPlanner` widens every request to such a window before either engine sees it,
+    C08 `window_widened_to_whole_buckets`); `SeriesStoreOk`; the series cap. -/
+theorem engines_agree_rangeAgg (parse : Bytes → Option Rat) (o : Oracles) (E : Env Rat) (hE : E.num = ratOps parse)
+    (h0 : E.o.isNum [] = false) (c : LogQL.Ctx) (hn : c.namesOk) (d : LokiDb) (hd : SeriesStoreOk o c d)
+    (ms : List Matcher) (hm : ms.length ≤ 63) (fs : List Stage)
+    (fn : Read.RangeFn) (fn' : LogQL.RangeFn) (hfn : toLra fn = some fn')
+    (dur k n : Nat) (hdur : 0 < dur) (hfrom : c.fromNs = (k : Int) * dur) (hto : c.toNs = c.fromNs + (n : Int) * dur)
+    (rc : Read.Ctx) (hrf : rc.fromNs = c.fromNs) (hrt : rc.toNs = c.toNs)
+    (hcap : (Stages.firstBy (fun e : Entry Rat => e.fp) (chRows E.num o c d ms (fs.map .fl))).length ≤ rc.maxSeries)
+    (bs : Batches Rat) (hbs : bs.flatten = chRows E.num o c d ms (fs.map .fl))
+    (l : Read.Labels) (t : Int) (v : Rat) :
+    (∃ e ∈ (runPlan E rc ⟨[], some (.range fn, dur), none, none, none⟩ bs).flatten, e.labels = l ∧ e.ts = t ∧ e.val = v) ↔
+    (∃ pt ∈ rangePoints o c d ⟨.lra fn', ⟨ms, fs⟩, dur, none, none, none⟩ c.fromNs c.toNs,
+        ∃ fp, pt.key = .int fp ∧ canonLabels (asMap (labelsOf o c d ⟨ms, fs⟩ fp)) = l ∧ pt.ts = t ∧ pt.value = v) := by
+  have hcounts : rangeCounts fn = true := by cases fn <;> simp [toLra, rangeCounts] at hfn ⊢
+  have hrun := split_end_to_end_metric o E h0 c hn d hd ms hm fs rc ⟨[], some (.range fn, dur), none, none, none⟩ rfl
+    (by intro s hs; cases hs) rfl (by intro _ _ _ h; cases h)
+    (by simpa [aggInput, Stages.stages] using hcap) (by simp [vecInput, Stages.firstBy]) bs hbs
+  rw [hrun]
+  have hrows : (chRows E.num o c d ms (fs.map .fl)).Perm ((baseX o c d ms (fs.map .fl)).map (scanX (ratOps parse))) := by
+    simp only [chRows, planLogX_correct o c hn d ⟨ms, fs.map .fl⟩ false hm, hE]
+    exact scanRows_evalLogX_perm (ratOps parse) o c d ms (fs.map .fl)
+  have := range_agree parse o c d hd ms fs fn fn' hfn dur k n hdur hfrom hto _ hrows l t v
+  simp only [evalPlan, Stages.stages, List.foldl_nil, hcounts, if_true, optCompare, hrf, hrt, hE] at this ⊢
+  exact this
 
 /-! ### the recorded finding: a step above the range -/
 /-- `clickhouse_planner.StepFixPlanner` on the matrix of the range / vector aggregation (rows ordered by series, then time):
